@@ -5,6 +5,7 @@ generated definition — obtained by evaluating the definitions in the order the
 Used by the `example`s next to the C02 / C03 / C17 theorems.
 -/
 import EPV.Lemmas.EPPistonModels
+import EPV.Lemmas.Bridge.EPPiston
 import EPV.Tactics
 
 set_option linter.all false
@@ -95,9 +96,14 @@ theorem ifinDefault_hyps :
     ifinDefault.Y < 2 * ifinDefault.G ∧ 0 < ifinDefault.rho_y ∧ ifinDefault.up < ifinDefault.wv_pl ∧
     ifinDefault.vel_y < ifinDefault.up := by
   have h1 : ifinDefault.wv_pl = 1 := rfl
-  have h2 : ifinDefault.vel_y = ifinDefault.wv_el * (ifinDefault.rho_y - ifinDefault.rho0) / ifinDefault.rho_y := rfl
+  -- the documented formulas of the constructor (bridge), not the shape of the generated definitions
+  have hρy : ifinDefault.rho_y ≠ 0 := by
+    simp only [ifinDefault, ifinSolve, epv_leaf, Real.rpow_neg_one, Real.rpow_two]; norm_num
+  have hdoc := (ifin_doc ifinDefault ifinDefault_ok.1 ifinDefault_ok.2).1
+  have h2 : ifinDefault.vel_y = ifinDefault.wv_el * (ifinDefault.rho_y - ifinDefault.rho0) / ifinDefault.rho_y :=
+    hdoc.vel_y_eq hρy
   have h3 : ifinDefault.wv_el = Real.sqrt (ifinDefault.rho_y * (ifinDefault.sdev_y - ifinDefault.p_y)
-      / (ifinDefault.rho0 * (ifinDefault.rho0 - ifinDefault.rho_y))) := rfl
+      / (ifinDefault.rho0 * (ifinDefault.rho0 - ifinDefault.rho_y))) := hdoc.wv_el_eq
   have h4 : ifinDefault.wv_el ≤ 1 := by
     rw [h3, Real.sqrt_le_one]
     simp only [ifinDefault, ifinSolve, epv_leaf, Real.rpow_neg_one, Real.rpow_two]; norm_num
